@@ -15,8 +15,8 @@ RULE = (
     "selector, sentinel styles). Taggings produce single- and multi-assembly outputs (haplotigs, contaminants, two haplotypes) "
     "so every kind of output file occurs (log, info yaml, assembly files, .agp companions of FASTA, chromosome list, chr "
     "report). Per case: (1) fresh run into an empty directory learns the output set O and its bytes; (2) a drawn non-empty "
-    "subset S of O (half of the cases a single file) is pre-created with sentinel bytes (short, empty, or longer than the real "
-    "file) and an old mtime, the run is repeated with --no-clobber: exit status must be non-zero, the error output must name "
+    "subset S of O (half of the cases a single file) is pre-created with sentinel bytes (short, empty, longer than the real "
+    "file, or identical to it) and an old mtime, the run is repeated with --no-clobber: exit status must be non-zero, the error output must name "
     "a file of S, every file of S must keep its bytes and mtime; (3) with all of S pre-created (long sentinels) the default "
     "--clobber run must exit 0 and reproduce every file of O byte for byte. 1 in 8 cases runs in a subprocess for the real "
     "exit status. Non-trivial = S does not contain the log (the first file opened), or consists only of an .agp companion "
@@ -55,6 +55,8 @@ def sentinel(style, real, k):
     base = (f"SENTINEL-{k}-" * 4).encode()
     if style == "empty":
         return b""
+    if style == "identical":
+        return real  # the very bytes the run would write: still a collision under --no-clobber
     if style == "longer":
         return base * (len(real) // len(base) + 2)
     return base
@@ -155,7 +157,7 @@ def cases(draw):
     c["write_log"] = draw(st.integers(0, 3)) > 0
     c["single"] = draw(st.booleans())
     c["subset"] = draw(st.lists(st.integers(0, 1000), min_size=6, max_size=6))
-    c["styles"] = draw(st.lists(st.sampled_from(["short", "empty", "longer"]), min_size=3, max_size=3))
+    c["styles"] = draw(st.lists(st.sampled_from(["short", "empty", "longer", "identical"]), min_size=3, max_size=3))
     c["subprocess"] = draw(st.integers(0, 7)) == 0
     return c
 
